@@ -34,3 +34,8 @@ claim("C08", "model_checking",
       "Every schedule with at most 2 (thorough: 3) preemptions of 30 harnesses (1-2 producers on async / non-blocking / batched enqueue paths, 1-2 consumers on blocking / non-blocking dequeue, cancellation of a blocked dequeue at each Pending, deregister/re-register/close races, the filtered SUB batch path) is executed on fresh real objects; a schedule in which every task is blocked while an item is committed is a lost wake-up; popped items must be exactly-once and per-pipe FIFO and the counters consistent at quiescence.",
       "atomicity granularity = individual channel op / atomic RMW / lock section (hooks between all of them in ready_pipe_queue.rs); sequentially consistent memory (weak-memory effects of the chosen Orderings not modelled: fibre/parking_lot cannot be switched to loom); component preconditions respected (ready capacity >= pipes, one producer per pipe); 2-3 items, 1-2 pipes",
       "5/C08")
+claim("C13", "model_checking",
+      "E1: explicit-state BFS of add/remove/next histories on the real LoadBalancer against a rotation reference; E2: preemption-bounded DFS of route_message / wait_for_connection harnesses on the real OutgoingMessageOrchestrator with real ScaConnectionIface objects over real bounded fibre pipes",
+      "All add/remove/next histories up to depth 7 (8) over three peers are checked for round-robin fairness on the real balancer; every schedule with at most 2 (3) preemptions of seven routing harnesses (wait-for-first-peer vs add / deactivate, full-peer skipping, all-full-then-one-drains, peer churn) must deliver each message to exactly one pipe and never leave the sender blocked while a peer has room.",
+      "harnesses use 2 peers of capacity 1-4 and 1-3 messages, SNDTIMEO=-1; atomicity granularity as in C08; the PUSH/DEALER socket wrappers are exercised by the E3 stack scenarios",
+      "5/C13")
